@@ -72,6 +72,8 @@ def make_universe(kind, mode, root, off, feats, via=None):
 
 def apply(o, act, args):
     if act == "Slice":
+        if len(args) == 3:
+            return o[args[0] : args[1] : args[2]]
         return o[args[0] : args[1]]
     if act == "Rc":
         return o.rc()
